@@ -14,7 +14,7 @@ from hypothesis import strategies as st
 from vlib import refmodels as rm, stubs
 from vlib.harness import REPO, Clause, HarnessError, Violation, drive
 
-from outrank.core_ranking import mixed_rank_graph
+from outrank.core_ranking import compute_batch_ranking, mixed_rank_graph
 
 ID = 'C05'
 RULE = ('Batches of 2-6 string columns x 2-300 rows (thorough: up to 3000 rows, so category codes leave int8/int16), column '
@@ -74,7 +74,9 @@ def frame_case(draw, max_rows=300):
     ncols = draw(st.integers(2, 6))
     cols = [draw(column(nrows, i)) for i in range(ncols)]
     case = {'nrows': nrows, 'cols': cols, 'label_pos': draw(st.integers(0, ncols - 1)),
-            'pairwise': draw(st.booleans()), 'heuristic': draw(st.sampled_from(HEURISTICS))}
+            'pairwise': draw(st.booleans()), 'heuristic': draw(st.sampled_from(HEURISTICS)),
+            # the batch enters either at the rank-graph function or one level up, as the raw rows of a mini-batch
+            'entry': draw(st.sampled_from(['mixed_rank_graph', 'mixed_rank_graph', 'compute_batch_ranking']))}
     if draw(st.integers(0, 3)) == 0:
         # column names as the tool itself builds them for interaction features ("a AND b"): name-based bookkeeping must not
         # confuse the pairs ('a AND b', 'c') and ('a', 'b AND c')
@@ -196,7 +198,14 @@ def oracle(case, rec):
         h = 'MI'
     args = stubs.make_args(heuristic=h, target_ranking_only='False' if case['pairwise'] else 'True')
     stubs.reset_globals()
-    out = mixed_rank_graph(df, args, stubs.InlinePool(), stubs.PBar()).triplet_scores
+    if case.get('entry') == 'compute_batch_ranking' and len(set(names)) == len(names):
+        import logging
+        rows = [list(r) for r in zip(*cols)]
+        summary = compute_batch_ranking(rows, set(), args, stubs.InlinePool(), list(names), logging.getLogger('c05'), stubs.PBar())[0]
+        out = summary.triplet_scores
+        rec.cls('entry=compute_batch_ranking')
+    else:
+        out = mixed_rank_graph(df, args, stubs.InlinePool(), stubs.PBar()).triplet_scores
     codes = {n: codes_of(c) for n, c in zip(names, cols)}
     nonconst = sum(1 for c in cols if len(set(c)) > 1)
     rec.nt(nonconst >= 2 and h != 'Constant', key=case)
@@ -283,7 +292,53 @@ def oracle_ami_highcard(case, rec):
                             f'adjusted_mutual_info_score gives {exp!r}', kind='C05/ami-highcard')
 
 
-ORACLES = {'C05/score': oracle, 'C05/alias': oracle, 'C05/huge-batch': oracle_huge, 'C05/ami-highcard': oracle_ami_highcard}
+@st.composite
+def real_pool_case(draw):
+    """2-3 consecutive mini-batches with the same column names and different contents, ranked through ONE real pathos process pool
+    (what the ranking task does: the pool is created once, its worker processes live across batches)."""
+    ncols = draw(st.integers(2, 4))
+    nb = draw(st.integers(2, 3))
+    batches = []
+    for _ in range(nb):
+        nrows = draw(st.integers(30, 200))
+        batches.append({'nrows': nrows, 'cols': [draw(column(nrows, i)) for i in range(ncols)]})
+    return {'batches': batches, 'label_pos': draw(st.integers(0, ncols - 1)), 'pairwise': draw(st.booleans()),
+            'heuristic': draw(st.sampled_from(['MI-numba-randomized', 'max-value-coverage', 'MI', 'MI-numba-3mr'])),
+            'nodes': draw(st.integers(1, 2))}
+
+
+def oracle_real_pool(case, rec):
+    from pathos.multiprocessing import ProcessingPool
+    h = case['heuristic']
+    args = stubs.make_args(heuristic=h, target_ranking_only='False' if case['pairwise'] else 'True')
+    stubs.reset_globals()
+    pool = ProcessingPool(int(case['nodes']))
+    rec.nt(True, key=case)
+    rec.cls('real-pool:batches=%d' % len(case['batches']), 'real-pool:h=' + h)
+    try:
+        for bi, b in enumerate(case['batches']):
+            cols = build_columns(b)
+            names = [f'f{i}' for i in range(len(cols))]
+            names[min(case['label_pos'], len(cols) - 1)] = 'label'
+            df = pd.DataFrame(dict(zip(names, cols)))
+            out = mixed_rank_graph(df, args, pool, stubs.PBar()).triplet_scores
+            codes = {n: codes_of(c) for n, c in zip(names, cols)}
+            for a, bb, sc in out:
+                exp, t = expected_scores(h, codes[a], codes[bb], a == 'label', bb == 'label')
+                if not any(nan_eq(float(sc), e, t) for e in exp):
+                    raise Violation(f'heuristic {h}, batch {bi + 1} of {len(case["batches"])} through one process pool of '
+                                    f'{case["nodes"]} worker(s): pair ({a}, {bb}) scored {float(sc)!r}, expected {exp} for the '
+                                    f'columns of THIS batch (tol {t:.1e})', kind='C05/real-pool')
+    finally:
+        try:
+            pool.close()
+            pool.join()
+            pool.clear()
+        except Exception:  # noqa: BLE001
+            pass
+
+
+ORACLES = {'C05/real-pool': oracle_real_pool, 'C05/score': oracle, 'C05/alias': oracle, 'C05/huge-batch': oracle_huge, 'C05/ami-highcard': oracle_ami_highcard}
 
 
 def run(ctx):
@@ -294,6 +349,7 @@ def run(ctx):
         Clause('C05/alias', alias_case, oracle, quick=24, thorough=1800, quick_shards=4, thorough_shards=8),
         Clause('C05/huge-batch', huge_case, oracle_huge, quick=2, thorough=16, quick_shards=2, thorough_shards=8),
         Clause('C05/ami-highcard', ami_highcard_case, oracle_ami_highcard, quick=1, thorough=12, quick_shards=1, thorough_shards=6),
+        Clause('C05/real-pool', real_pool_case, oracle_real_pool, quick=3, thorough=48, quick_shards=3, thorough_shards=12),
     ]
     drive(ctx, clauses)
     missing = [h for h in HEURISTICS if ctx.stats.classes.get('h=' + h, 0) == 0 and not ctx.violations]
